@@ -138,14 +138,14 @@ theorem C07.checkUsage_ok_iff (d : Design) : checkUsage true d = true ↔ UsageO
 
 -- non-vacuity: a design with two contexts, an instance and a variable is accepted ...
 example : checkUsage true ⟨[.signal, .portIn, .portOut, .variable],
-    [⟨.seq, [⟨1, false, false⟩, ⟨0, true, false⟩, ⟨3, true, false⟩, ⟨3, false, false⟩]⟩, ⟨.conc, [⟨0, false, false⟩]⟩],
+    [⟨.seq, [⟨1, .read, false⟩, ⟨0, .write, false⟩, ⟨3, .write, false⟩, ⟨3, .read, false⟩]⟩, ⟨.conc, [⟨0, .read, false⟩]⟩],
     [⟨[0], [2]⟩]⟩ = true := by decide
 -- ... and each clause rejects: two contexts writing slices of root 0; an input port written; a variable in two
 -- contexts; an instance output onto a signal written by a context
-example : checkUsage true ⟨[.signal], [⟨.seq, [⟨0, true, false⟩]⟩, ⟨.conc, [⟨0, true, false⟩]⟩], []⟩ = false := by decide
-example : checkUsage true ⟨[.portIn], [⟨.seq, [⟨0, true, false⟩]⟩], []⟩ = false := by decide
-example : checkUsage true ⟨[.variable], [⟨.seq, [⟨0, true, false⟩]⟩, ⟨.seq, [⟨0, false, false⟩]⟩], []⟩ = false := by decide
-example : checkUsage true ⟨[.signal], [⟨.seq, [⟨0, true, false⟩]⟩], [⟨[], [0]⟩]⟩ = false := by decide
+example : checkUsage true ⟨[.signal], [⟨.seq, [⟨0, .write, false⟩]⟩, ⟨.conc, [⟨0, .write, false⟩]⟩], []⟩ = false := by decide
+example : checkUsage true ⟨[.portIn], [⟨.seq, [⟨0, .write, false⟩]⟩], []⟩ = false := by decide
+example : checkUsage true ⟨[.variable], [⟨.seq, [⟨0, .write, false⟩]⟩, ⟨.seq, [⟨0, .read, false⟩]⟩], []⟩ = false := by decide
+example : checkUsage true ⟨[.signal], [⟨.seq, [⟨0, .write, false⟩]⟩], [⟨[], [0]⟩]⟩ = false := by decide
 
 /-! ### consequence: unique drivers in the emitted architecture -/
 
@@ -174,12 +174,12 @@ theorem C07.accepted_unique_driver (d : Design) (h : checkUsage true d = true) :
 
 -- non-vacuity: an accepted design in which always block, body, a concurrent context and an instance each drive a root
 example : checkUsage true ⟨[.signal, .signal, .signal, .signal, .portIn],
-    [⟨.seq, [⟨0, true, true⟩, ⟨1, true, false⟩, ⟨0, false, false⟩]⟩, ⟨.conc, [⟨2, true, false⟩]⟩], [⟨[4], [3]⟩]⟩ = true := by decide
+    [⟨.seq, [⟨0, .write, true⟩, ⟨1, .write, false⟩, ⟨0, .read, false⟩]⟩, ⟨.conc, [⟨2, .write, false⟩]⟩], [⟨[4], [3]⟩]⟩ = true := by decide
 
 /-- the witness of the defect: root 0 is assigned in `with cohdl.always:` and in the body of the same
     sequential context (design_sketches/probes/c07_always_double_driver.py) -/
 def CohdlVerif.C07.alwaysWitness : Design :=
-  ⟨[.signal], [⟨.seq, [⟨0, true, true⟩, ⟨0, true, false⟩]⟩], []⟩
+  ⟨[.signal], [⟨.seq, [⟨0, .write, true⟩, ⟨0, .write, false⟩]⟩], []⟩
 
 /-- the statement `accepted -> unique driver` is FALSE for the mirror of the tree before
     fixes/C07-always-block-separate-driver.patch: the witness is accepted (front-end rules and usage check) and
@@ -195,8 +195,8 @@ theorem C07.accepted_unique_driver_partial (d : Design) (_h : checkUsage false d
     (hsep : checkUsage true d = true) : ∀ r, drivers (emit d) r ≤ 1 :=
   C07.accepted_unique_driver d hsep
 
-example : checkUsage false ⟨[.signal, .signal], [⟨.seq, [⟨0, true, true⟩, ⟨1, true, false⟩]⟩], []⟩ = true
-    ∧ checkUsage true ⟨[.signal, .signal], [⟨.seq, [⟨0, true, true⟩, ⟨1, true, false⟩]⟩], []⟩ = true := by decide
+example : checkUsage false ⟨[.signal, .signal], [⟨.seq, [⟨0, .write, true⟩, ⟨1, .write, false⟩]⟩], []⟩ = true
+    ∧ checkUsage true ⟨[.signal, .signal], [⟨.seq, [⟨0, .write, true⟩, ⟨1, .write, false⟩]⟩], []⟩ = true := by decide
 
 /-! ### variables never leave their process -/
 
@@ -218,7 +218,7 @@ theorem C07.variables_stay_in_process (d : Design) (h : accept true d = true) (r
       · exfalso
         have := hfc c hcm
         simp only [ctxFrontend, Bool.and_eq_true, List.all_eq_true] at this
-        obtain ⟨⟨⟨_, hal⟩, _⟩, _⟩ := this
+        obtain ⟨⟨⟨⟨⟨_, hal⟩, _⟩, _⟩, _⟩, _⟩ := this
         rw [hk.2, List.mem_map] at hru
         obtain ⟨a, ha, hroot⟩ := hru
         have := hal a ha
@@ -250,7 +250,7 @@ theorem C07.variables_stay_in_process (d : Design) (h : accept true d = true) (r
   · intro c hcm hkind a ha hroot
     have := hfc c hcm
     simp only [ctxFrontend, Bool.and_eq_true, List.all_eq_true, Bool.or_eq_true] at this
-    obtain ⟨⟨⟨hvc, _⟩, _⟩, _⟩ := this
+    obtain ⟨⟨⟨⟨⟨hvc, _⟩, _⟩, _⟩, _⟩, _⟩ := this
     rcases hvc with hvc | hvc
     · simp [hkind] at hvc
     · have := hvc a ha
@@ -258,9 +258,38 @@ theorem C07.variables_stay_in_process (d : Design) (h : accept true d = true) (r
 
 -- non-vacuity: an accepted design with a variable written and read in one sequential context
 example : accept true ⟨[.variable, .portIn, .portOut],
-    [⟨.seq, [⟨1, false, false⟩, ⟨0, true, false⟩, ⟨0, false, false⟩, ⟨2, true, false⟩]⟩], []⟩ = true := by decide
+    [⟨.seq, [⟨1, .read, false⟩, ⟨0, .write, false⟩, ⟨0, .read, false⟩, ⟨2, .write, false⟩]⟩], []⟩ = true := by decide
 -- and the rejected placements: variable read in an always block, in a concurrent context, in two contexts, as actual
-example : accept true ⟨[.variable, .portOut], [⟨.seq, [⟨0, false, true⟩, ⟨1, true, true⟩]⟩], []⟩ = false := by decide
-example : accept false ⟨[.variable, .portOut], [⟨.seq, [⟨0, false, true⟩, ⟨1, true, true⟩]⟩], []⟩ = true := by decide
-example : accept true ⟨[.variable, .portOut], [⟨.conc, [⟨0, false, false⟩, ⟨1, true, false⟩]⟩], []⟩ = false := by decide
-example : accept true ⟨[.variable, .portOut], [⟨.seq, [⟨0, true, false⟩]⟩], [⟨[0], [1]⟩]⟩ = false := by decide
+example : accept true ⟨[.variable, .portOut], [⟨.seq, [⟨0, .read, true⟩, ⟨1, .write, true⟩]⟩], []⟩ = false := by decide
+example : accept false ⟨[.variable, .portOut], [⟨.seq, [⟨0, .read, true⟩, ⟨1, .write, true⟩]⟩], []⟩ = true := by decide
+example : accept true ⟨[.variable, .portOut], [⟨.conc, [⟨0, .read, false⟩, ⟨1, .write, false⟩]⟩], []⟩ = false := by decide
+example : accept true ⟨[.variable, .portOut], [⟨.seq, [⟨0, .write, false⟩]⟩], [⟨[0], [1]⟩]⟩ = false := by decide
+
+/-! ### push assignments are writes -/
+
+/-- `^=` / `.push` (AccessFlags.PUSH) count as drivers: in an accepted design a root pushed by one context (or always
+    block) is written or pushed by no other one -/
+theorem C07.push_counts_as_write (d : Design) (h : checkUsage true d = true)
+    (o₁ o₂ : Owner) (a₁ a₂ : Access)
+    (h₁ : (o₁, a₁) ∈ ctxsEvents true 0 d.ctxs) (h₂ : (o₂, a₂) ∈ ctxsEvents true 0 d.ctxs)
+    (hp : a₁.acc = .push) (hw : a₂.write = true) (hr : a₁.root = a₂.root) : o₁ = o₂ := by
+  have hok := (C07.checkUsage_ok_iff d).1 h
+  have hsame := pairwise_same_owner (hok.singleWriter.imp (fun hab hk => (hab hk).1))
+  have hw₁ : a₁.write = true := by simp [Access.write, hp]
+  have m₁ : (a₁.root, o₁) ∈ writeEvents true d := by
+    simp only [writeEvents, wEv, List.mem_append, List.mem_filterMap]
+    exact Or.inl ⟨(o₁, a₁), h₁, by simp [hw₁]⟩
+  have m₂ : (a₂.root, o₂) ∈ writeEvents true d := by
+    simp only [writeEvents, wEv, List.mem_append, List.mem_filterMap]
+    exact Or.inl ⟨(o₂, a₂), h₂, by simp [hw]⟩
+  exact hsame _ m₁ _ m₂ hr
+
+-- a root pushed in one sequential context and assigned / pushed in another context, or driven by an instance, is rejected;
+-- a push inside one context together with the WRITE of `reset_pushed()` of the same context is accepted
+example : checkUsage true ⟨[.signal], [⟨.seq, [⟨0, .push, false⟩]⟩, ⟨.seq, [⟨0, .write, false⟩]⟩], []⟩ = false := by decide
+example : checkUsage true ⟨[.signal], [⟨.seq, [⟨0, .push, false⟩]⟩, ⟨.seq, [⟨0, .push, false⟩]⟩], []⟩ = false := by decide
+example : checkUsage true ⟨[.signal], [⟨.seq, [⟨0, .push, false⟩]⟩, ⟨.conc, [⟨0, .write, false⟩]⟩], []⟩ = false := by decide
+example : checkUsage true ⟨[.signal], [⟨.seq, [⟨0, .push, false⟩]⟩], [⟨[], [0]⟩]⟩ = false := by decide
+example : checkUsage true ⟨[.portIn], [⟨.seq, [⟨0, .push, false⟩]⟩], []⟩ = false := by decide
+example : accept true ⟨[.signal], [⟨.seq, [⟨0, .write, false⟩, ⟨0, .push, false⟩]⟩], []⟩ = true := by decide
+example : accept true ⟨[.signal], [⟨.conc, [⟨0, .push, false⟩]⟩], []⟩ = false := by decide
